@@ -44,6 +44,8 @@ def classes():
             for act in self._prog.get((kind, r, s, a), ()):
                 if act == "c":
                     self.create_agent("a", {})
+                elif act == "x":                       # cancellation: the public flag the scheduler tests before every step
+                    self.scheduler.running = False
                 else:
                     ids = [int(x) for x in act[1:].split(".")] if len(act) > 1 else []
                     if len(ids) == 1:
@@ -96,7 +98,8 @@ def status_real(m, evs, crashed, span):
     keys = sorted(fbits(k) for k in m.data_collector.agent_statistics.keys())
     return (";".join(ev_str(e) for e in evs if e[0] != "entry") +
             f"|progress={fbits(p) if span else '%.9f' % p}|skipped={1 if p < 1.0 else 0}|crashed={1 if crashed else 0}|stuck=0"
-            f"|keys={','.join(keys)}|pop={'.'.join(str(a.id) for a in m.agents)}|next={m.next_agent_id}")
+            f"|keys={','.join(keys)}|pop={'.'.join(str(a.id) for a in m.agents)}|next={m.next_agent_id}"
+            f"|running={1 if m.scheduler.running else 0}")
 
 
 def canon_model(line, span):
@@ -125,6 +128,10 @@ def run_real(case, span):
         except ZeroDivisionError:
             crashed = True
         lines.append(status_real(m, m._log, crashed, span))
+        if case.get("rerun") and not crashed:          # `run` again: the flag is never set back
+            n0 = len(m._log)
+            m.run(collect_data=bool(case["collect"]))
+            lines.append(status_real(m, m._log[n0:], crashed, span))
     else:
         for st in case["steps"]:
             n0 = len(m._log)
@@ -139,12 +146,32 @@ def run_real(case, span):
     return lines, m._log, crashed, m, dt
 
 
-def requests(case):
-    prog = ";".join(f"{k}:{r}:{s}:{a}:{','.join(acts)}" for k, r, s, a, acts in case["prog"]) or "-"
+def cancel_positions(case):
+    """steps in which begin_round / end_round clear scheduler.running (these callbacks run in every executed step)"""
+    return sorted({(r, s) for k, r, s, a, acts in case["prog"] if k in "BE" and "x" in acts})
+
+
+def create_bound(case):
+    """(N, c) of the theorem `agentLoop_terminates` for this program table: every agent creates at most c agents in its
+    handle_events + act of one step, agents with id >= N create nobody."""
+    per = {}
+    for k, r, s, a, acts in case["prog"]:
+        if k in "HA":
+            per[(r, s, a)] = per.get((r, s, a), 0) + sum(1 for x in acts if x == "c")
+    c = max(per.values(), default=0)
+    n = max((a + 1 for (r, s, a), v in per.items() if v > 0), default=0)
+    return n, c
+
+
+def requests(case, fuel=FUEL):
+    prog = ";".join(f"{k}:{r}:{s}:{a}:{','.join(x for x in acts if x != 'x')}" for k, r, s, a, acts in case["prog"]) or "-"
     req = [f"prog {prog}",
-           f"new {case['start']} {case['stop']} {case['n']} {case['collect']} {case['k0']} {FUEL} {fbits(1 / case['n'])}"]
+           f"new {case['start']} {case['stop']} {case['n']} {case['collect']} {case['k0']} {fuel} {fbits(1 / case['n'])}"]
     if case["mode"] == "run":
-        req.append("run")
+        cp = ";".join(f"{r}:{s}" for r, s in cancel_positions(case)) or "-"
+        req.append("run" if cp == "-" and not case.get("rerun") else f"runc {cp}")
+        if case.get("rerun"):
+            req.append(f"rerun {cp}")
     else:
         for st in case["steps"]:
             req.append(f"step 0 {st[1]}" if st[0] == "model" else f"step {st[1]} {st[2]}")
@@ -217,8 +244,30 @@ def spec_check(case, log, crashed, m, dt):
         bl = blocks_of(log)
     except ValueError as e:
         return ("callback-order", str(e))
+    cancelled_early = False
+    if whole and case.get("rerun"):
+        # the second `run` (blocks after the first run's statistics were reset) is checked by the correspondence only
+        first_run = []
+        seen = set()
+        for b in bl:
+            if b["pos"] in seen:
+                break
+            seen.add(b["pos"]); first_run.append(b)
+        bl = first_run
     if whole:
         g = grid(case)
+        cps = set(cancel_positions(case))
+        if cps & set(g):
+            # cancellation is outside the statement: what the statement still fixes is that the executed steps are an initial
+            # segment of the grid (each once, in order) that includes the step in which the flag was cleared; where exactly the
+            # run stops after that is compared with the model as evidence only (notes.cancel_model)
+            k = min(i for i, p in enumerate(g) if p in cps)
+            got = [b["pos"] for b in bl]
+            cancelled_early = len(got) < len(g)
+            if len(got) >= k + 1 and got == g[:len(got)]:
+                g = got
+            else:
+                g = g[:k + 1]
         if [b["pos"] for b in bl] != g:
             return ("steps", f"steps executed {[b['pos'] for b in bl][:12]}… expected the grid {g[:12]}… "
                              f"({len(bl)} vs {len(g)} steps)")
@@ -235,9 +284,9 @@ def spec_check(case, log, crashed, m, dt):
             return ("callback-order", t)
     keys = set(m.data_collector.agent_statistics.keys())
     want_keys = {b["time"] for b in bl if b["collect"]}
-    if keys != want_keys:
+    if keys != want_keys and not case.get("rerun"):
         return ("collect", f"agent_statistics has times {sorted(keys)}, statistics were taken at {sorted(want_keys)}")
-    if whole and case["start"] <= case["stop"] and m.scheduler.progress < 1.0:
+    if whole and case["start"] <= case["stop"] and m.scheduler.progress < 1.0 and not cancelled_early and not case.get("rerun"):
         return (KEY, f"run_specs({case['start']}, {case['stop']}, {dt}): all {len(bl)} steps ran but scheduler.progress "
                      f"ends at {m.scheduler.progress} < 1.0, so HybridRunner.run_scenario skips the scenario")
     return None
@@ -254,6 +303,14 @@ def probe():
                                 "final_progress": m.scheduler.progress, "steps": len(blocks_of(log))})
         if not ok:
             facts["progressBySpan"] = False
+    # mid-step iteration semantics on the real scheduler: agent 0 creates agent 2 (acts in this step), agent 2 creates agent 3
+    # (nested, acts in this step), deletes agent 0 (the list object is rebound) and creates agent 4 (acts from the next step on)
+    case = {"start": 1, "stop": 1, "n": 1, "collect": 1, "k0": 2, "mode": "run",
+            "prog": [["A", 1, 0, 0, ["c"]], ["A", 1, 0, 2, ["c", "d0", "c"]]]}
+    _, log, crashed, m, dt = run_real(case, True)
+    bl = blocks_of(log)
+    facts["midstep"] = {"acted": bl[0]["acted"] if bl else None, "pop": [a.id for a in m.agents], "next": m.next_agent_id,
+                        "bound": list(create_bound(case))}
     return facts
 
 
@@ -263,9 +320,22 @@ def gen_lean(facts):
             "theorem violated : ¬ C12_full cfg := C12_witness_zero cfg (by decide)\n"
             "theorem violated_negative_stop : ¬ C12_full cfg := C12_witness_negative cfg (by decide)\n"
             "#print axioms violated\n#print axioms violated_negative_stop\n#print axioms C12_partial\n")
+    ms = facts.get("midstep") or {}
+    mid = ""
+    if ms.get("acted") is not None:
+        n_, c_ = ms["bound"]
+        lst = lambda xs: "[" + ", ".join(map(str, xs)) + "]"
+        mid = ("def probeProg : Prog := { quietProg with act := fun r s a => if r = 1 ∧ s = 0 ∧ a = 0 then [.create] else\n"
+               "  if r = 1 ∧ s = 0 ∧ a = 2 then [.create, .delete [0], .create] else [] }\n"
+               f"def probeSpec : Spec := {{ start := 1, stop := 1, n := 1, collectOn := true, fuel := 2 + {c_} * {n_} }}\n"
+               "/-- what the real scheduler did on the nested create / delete / create program (acting agents, final population) is what the\n"
+               "model computes, with exactly the fuel `L + c·N` of `agentLoop_terminates` -/\n"
+               f"theorem midstep_probe : (stepOut probeProg probeSpec ⟨[0, 1], 2⟩ 1 0).acted = {lst(ms['acted'])} ∧\n"
+               f"    (stepOut probeProg probeSpec ⟨[0, 1], 2⟩ 1 0).pop = ⟨{lst(ms['pop'])}, {ms['next']}⟩ ∧\n"
+               "    (stepOut probeProg probeSpec ⟨[0, 1], 2⟩ 1 0).stuck = false := by decide\n#print axioms midstep_probe\n")
     return ("import Bptk.Props.C12\n/-! GENERATED by harness/props/c12.py from /repo on every run — do not edit. -/\n"
             "namespace Bptk.C12.Gen\n"
-            f"def cfg : Cfg := {{ progressBySpan := {'true' if good else 'false'} }}\n" + body + "end Bptk.C12.Gen\n")
+            f"def cfg : Cfg := {{ progressBySpan := {'true' if good else 'false'} }}\n" + body + mid + "end Bptk.C12.Gen\n")
 
 
 # ------------------------------------------------------------------ generators
@@ -289,6 +359,53 @@ def gen_prog(rng, positions, k0, density):
     return prog
 
 
+def gen_midstep_cases():
+    """systematic: an agent created / deleted during a step at every position of the acting agent (first / middle / last) and of
+    the deleted agent (first / middle / last / the acting agent itself), in handle_events and in act; nested creations (the agent
+    created in this step creates the next one, to depth 3, one or two creations each, optionally with a deletion in between)."""
+    cases = []
+    def run_case(k0, prog):
+        return {"start": 1, "stop": 2, "n": 2, "collect": 1, "k0": k0, "prog": prog, "mode": "run", "midstep": True}
+    for k0 in (1, 2, 3, 4):
+        where = sorted({0, k0 // 2, k0 - 1})
+        for a in where:
+            for kind in ("H", "A"):
+                variants = [["c"], [f"d{a}"], ["c", f"d{a}", "c"], [f"d{a}", "c"]]
+                for t in where:
+                    variants += [[f"d{t}"], ["c", f"d{t}"], [f"d{t}", "c"], [f"d{t}.{a}"], ["c", f"d{k0}"]]
+                seen = set()
+                for acts in variants:
+                    if tuple(acts) not in seen:
+                        seen.add(tuple(acts))
+                        cases.append(run_case(k0, [[kind, 1, 0, a, acts]]))
+    for k0 in (1, 2, 3):
+        for a in sorted({0, k0 - 1}):
+            for depth in (1, 2, 3):
+                chain = [["A", 1, 1, a, ["c"]]] + [["A" if j % 2 else "H", 1, 1, k0 + j, ["c"]] for j in range(depth)]
+                cases.append(run_case(k0, chain))
+                cases.append(run_case(k0, chain[:1] + [["H", 1, 1, k0, ["d0"]]] + chain[1:]))
+                cases.append(run_case(k0, chain[:2] + [["A", 1, 1, k0 + 1, [f"d{k0 + 1}"]]] + chain[2:]))
+                cases.append(run_case(k0, [["A", 1, 1, a, ["c", "c"]]] + [["A", 1, 1, k0 + j, ["c", "c"]] for j in range(depth)]))
+    return cases
+
+
+def gen_cancel_cases():
+    """scheduler.running cleared in begin_round / end_round of every position of a 2x2 and a 1x3 grid, once also twice, with and
+    without a second `run` afterwards (the flag is never set back)."""
+    cases = []
+    for (start, stop, n) in [(1, 2, 2), (0, 0, 3), (-1, 0, 1)]:
+        g = [(r, s) for r in range(start, stop + 1) for s in range(n)]
+        for (r, s) in g:
+            for kind in "BE":
+                for rerun in (0, 1):
+                    cases.append({"start": start, "stop": stop, "n": n, "collect": 1, "k0": 2, "mode": "run", "rerun": rerun,
+                                  "prog": [[kind, r, s, 0, ["x"]], ["A", r, s, 0, ["c"]]]})
+        cases.append({"start": start, "stop": stop, "n": n, "collect": 0, "k0": 1, "mode": "run", "rerun": 1,
+                      "prog": [["B", g[0][0], g[0][1], 0, ["x"]], ["E", g[-1][0], g[-1][1], 0, ["x"]]]})
+        cases.append({"start": start, "stop": stop, "n": n, "collect": 1, "k0": 1, "mode": "run", "rerun": 1, "prog": []})
+    return cases
+
+
 def gen_cases(chk):
     rng = chk.rng.fork("c12")
     cases = []
@@ -303,6 +420,8 @@ def gen_cases(chk):
     for (a, b) in [(0, 0), (-2, 0), (-3, -1)]:
         cases.append({"start": a, "stop": b, "n": 2, "collect": 0, "k0": 2,
                       "prog": [["A", a, 0, 0, ["c", "d1", "c"]]], "mode": "run"})
+    cases += gen_midstep_cases()
+    cases += gen_cancel_cases()
     # random whole runs with programs
     for _ in range(120 if chk.quick else 2500):
         start = rng.range(-6, 6)
@@ -310,8 +429,12 @@ def gen_cases(chk):
         n = rng.choice(NS)
         k0 = rng.range(0, 5)
         pos = [(r, s) for r in range(start, stop + 1) for s in range(n)]
+        prog = gen_prog(rng, pos, k0, rng.choice([0, 10, 30, 60]))
+        if pos and rng.chance(1, 5):          # cancellation somewhere in the run
+            r, s = rng.choice(pos)
+            prog.append([rng.choice("BE"), r, s, 0, ["x"]])
         cases.append({"start": start, "stop": stop, "n": n, "collect": rng.below(2), "k0": k0,
-                      "prog": gen_prog(rng, pos, k0, rng.choice([0, 10, 30, 60])), "mode": "run"})
+                      "prog": prog, "mode": "run", "rerun": 1 if rng.chance(1, 8) else 0})
     # externally driven single steps (Model.run_step(s) = round 0; scheduler.run_step(model, r, s))
     for _ in range(60 if chk.quick else 1200):
         start = rng.range(-4, 4)
@@ -407,11 +530,20 @@ def run(chk):
         "user callbacks are modelled by their effect on the population (create/delete) only; event routing is C11",
     ]
     chk.assumptions = ["integer starttime/stoptime (range() requires it), dt = 1/n with round(1/dt) = n ≥ 1",
-                       "callbacks terminate (a program whose created agents keep creating agents never leaves a step; model: stuck)",
-                       "scheduler.running is never cleared during the run (cancellation is outside the statement)",
+                       "termination of a step is proved (agentLoop_terminates / run_terminates) under the explicit bound CreateBound N c: every agent creates "
+                       "at most c agents in its handle_events+act of a step and agents with id ≥ N create nobody; the driver runs every case with exactly the "
+                       "theorem's fuel L + c·N (N, c computed from the program table); without such a bound Python itself never leaves the step",
+                       "cancellation (scheduler.running cleared by a callback) is outside the statement; it is modelled (runC, CancelClauses) and compared as "
+                       "evidence (notes.cancel_model), the reference check only requires an initial segment of the grid there",
+                       "float time labels: label_exact_pow2 (ℚ, any rounding that fixes representable numbers) for 1/dt a power of two, |round·n + step| < 2^53; "
+                       "IEEE doubles as an instance are trusted (checked on every label of every run: labels_pow2_on_grid)",
                        "total number of steps < 2^53 (done/total < 1.0 in floats iff done < total)"]
     cases, n_exh = gen_cases(chk)
-    chk.cov["rule"] = (f"all run specs start∈[-3,2], stop∈[start-1,start+2], n∈{{1,2,3}}, both collect settings with a quiet program ({n_exh} runs), "
+    chk.cov["rule"] = ("wave 2: + systematic mid-step programs (create / delete of the first, middle, last agent and of the acting agent itself by the "
+                       "first, middle, last acting agent, in handle_events and act; nested creations to depth 3 with one or two creations each, optionally with a "
+                       "deletion inside the chain), runs cancelled through scheduler.running in begin_round / end_round of every grid position (with and without a "
+                       "second run), random runs with a cancellation (1/5) and a second run (1/8); every case is driven with the fuel bound of the termination "
+                       f"theorem; || all run specs start∈[-3,2], stop∈[start-1,start+2], n∈{{1,2,3}}, both collect settings with a quiet program ({n_exh} runs), "
                        "the three documented stop≤0 specs with a mid-step create/delete program, seeded random whole runs (start∈[-6,6], n∈"
                        f"{NS}, 0–5 agents, programs creating/deleting agents in begin_round/handle_events/act/end_round) and seeded random "
                        "sequences of externally driven steps (Model.run_step(s) and scheduler.run_step(model,r,s)); a case is the canonical "
@@ -419,14 +551,33 @@ def run(chk):
     req = [f"cfg progressBySpan {1 if span else 0}"]
     real = ["ok"]
     owner = [None]
+    label_fail = None
+    soft = [False]            # lines of cancelled runs: compared as evidence, never a finding
     first_spec = None
-    dist = {"run": 0, "steps": 0, "with_program": 0, "stop<=0": 0, "empty_span": 0, "steps_total": 0, "n": {}}
+    dist = {"run": 0, "steps": 0, "with_program": 0, "stop<=0": 0, "empty_span": 0, "steps_total": 0, "n": {}, "max_fuel_bound": 0,
+            "labels_pow2_on_grid": 0, "labels_other_on_grid": 0, "labels_other_off_grid": 0, "nested_creation_steps": 0, "cancelled_runs": 0, "reruns": 0, "midstep_systematic": 0}
     for ci, case in enumerate(cases):
         lines, log, crashed, m, dt = run_real(case, span)
-        rq = requests(case)
+        bn, bc = create_bound(case)
+        fuel = m.next_agent_id + bc * bn          # the theorem's bound L + c*N with L <= number of ids ever given out
+        dist["max_fuel_bound"] = max(dist["max_fuel_bound"], fuel)
+        dist["nested_creation_steps"] += any(len(b["acted"]) > len(b["entry"][0]) + 1 for b in blocks_of(log) if b["entry"])
+        dist["cancelled_runs"] += bool(case["mode"] == "run" and cancel_positions(case))
+        dist["reruns"] += bool(case.get("rerun"))
+        dist["midstep_systematic"] += bool(case.get("midstep"))
+        from fractions import Fraction
+        for e in log:
+            if e[0] == "B":
+                exact = Fraction(e[3]) == Fraction(e[1]) + Fraction(e[2], case["n"])
+                pow2 = case["n"] & (case["n"] - 1) == 0
+                dist["labels_pow2_on_grid" if pow2 else ("labels_other_on_grid" if exact else "labels_other_off_grid")] += 1
+                if pow2 and not exact and label_fail is None:      # label_exact_pow2 instantiated at IEEE doubles
+                    label_fail = (case, e)
+        rq = requests(case, fuel)
         req += rq
         real += ["ok", "ok"] + lines
         owner += [ci] * len(rq)
+        soft += [bool(case["mode"] == "run" and cancel_positions(case))] * len(rq)
         nsteps = sum(1 for e in log if e[0] == "B")
         dist[case["mode"]] += 1
         dist["with_program"] += bool(case["prog"])
@@ -442,10 +593,15 @@ def run(chk):
     chk.cov["input_distribution"] = dist
     model = [canon_model(l, span) if "|" in l else l for l in drive("C12", req)]
     chk.cov["traces_validated_against_impl"] = len(cases)
-    diff = next((i for i, (a, b) in enumerate(zip(model, real)) if a != b), None)
+    diff = next((i for i, (a, b) in enumerate(zip(model, real)) if a != b and not soft[i]), None)
     if diff is None and len(model) != len(real):
         diff = min(len(model), len(real))
     chk.notes["correspondence_first_diff"] = diff
+    soft_diffs = [i for i, (a, b) in enumerate(zip(model, real)) if a != b and soft[i]]
+    chk.notes["cancel_model"] = {"lines_compared": sum(soft), "disagreements": len(soft_diffs),
+                                 "first": ({"request": req[soft_diffs[0]], "case": cases[owner[soft_diffs[0]]]} if soft_diffs else None),
+                                 "meaning": "runs in which begin_round/end_round clear scheduler.running: the model (runC: the run stops after the "
+                                            "step in progress, the flag is never set back) against the implementation; outside the statement, never a finding"}
     # through bptk.run_scenarios: a finished scenario is reported, with one row per grid time
     specs = [(1, 3, 2), (0, 0, 2), (-2, 0, 2), (-3, -1, 2), (-1, 1, 1), (0, 2, 4)]
     bl = bptk_level(specs)
@@ -460,7 +616,10 @@ def run(chk):
     if first_spec is not None:
         case, (key, _) = first_spec
         def fails(c):
-            _, lg, cr, mm, d = run_real(c, span)
+            try:
+                _, lg, cr, mm, d = run_real(c, span)
+            except Exception:
+                return False
             v = spec_check(c, lg, cr, mm, d)
             return v is not None and v[0] == key
         small = shrink_case(case, fails)
@@ -473,6 +632,10 @@ def run(chk):
                         {"bptk": [start, stop, n]})
     if not span and first_spec is None and bptk_fail is None:
         chk.add_finding(KEY, f"probe: {facts['detail']}", {"case": {"start": 0, "stop": 0, "n": 2, "collect": 1, "k0": 1, "prog": [], "mode": "run"}})
+    if label_fail is not None and first_spec is None:
+        case, e = label_fail
+        chk.add_finding("time-label", f"run_specs({case['start']}, {case['stop']}, 1/{case['n']}): time label of round {e[1]} step {e[2]} is {e[3]!r}, "
+                        f"not the grid point {e[1]} + {e[2]}/{case['n']} (exact for a binary dt: label_exact_pow2)", {"case": case})
     if not ok:
         chk.add_finding("obligation", f"proof obligations of C12 no longer check: {why}",
                         {"theorem": "Bptk.C12.Gen.holds / Bptk.Props.C12", "detail": why}, found_input=False)
